@@ -90,10 +90,13 @@ def unchanged_lists(x):
     """no pre-existing list object changed (content frame for pure functions that allocate)."""
     l = L.fresh("l", L.LRef)
     i = L.fresh("i", I)
-    return And(
+    cs = [
         ForAll([l], Implies(x.h0.lalloc(l), x.h.llen(l) == x.h0.llen(l)), patterns=[x.h.llen(l)]),
         ForAll([l, i], Implies(x.h0.lalloc(l), x.h.litem(l, i) == x.h0.litem(l, i)), patterns=[x.h.litem(l, i)]),
-    )
+    ]
+    if not z3.eq(x.h0.lalloc, x.h.lalloc):
+        cs.append(ForAll([l], Implies(x.h0.lalloc(l), x.h.lalloc(l)), patterns=[x.h.lalloc(l)]))
+    return And(*cs)
 
 
 def fresh_list(x, l):
